@@ -92,6 +92,9 @@ GenBuses == { << m, MapDecl("2", 126, 127, 0, 65535, 65536, TRUE, NoMirror, NoMi
               m \in {d \in Menu : WellFormedDecl(d) /\ d.b1 < 126 } }
             \* a later declaration carving RAM out of an earlier, wider ROM range (as the built-in HiROM bus does)
             \cup { << MapDecl("1", 64, 127, 0, 65535, 65536, FALSE, 192, 255), MapDecl("2", 126, 127, 0, 65535, 65536, TRUE, NoMirror, NoMirror) >>,
-                   << MapDecl("1", 0, 63, 32768, 65535, 32768, FALSE, 128, 191), MapDecl("2", 32, 33, 0, 65535, 65536, TRUE, NoMirror, NoMirror) >> }
+                   << MapDecl("1", 0, 63, 32768, 65535, 32768, FALSE, 128, 191), MapDecl("2", 32, 33, 0, 65535, 65536, TRUE, NoMirror, NoMirror) >>,
+                   \* a writable range with a mirror: the mirror banks are RAM as well (no storage offset)
+                   << MapDecl("1", 0, 63, 32768, 65535, 32768, FALSE, 128, 191), MapDecl("2", 126, 127, 0, 65535, 65536, TRUE, 254, 255) >>,
+                   << MapDecl("1", 64, 64, 0, 65535, 65536, FALSE, NoMirror, NoMirror), MapDecl("2", 112, 112, 0, 65535, 65536, TRUE, 240, 240) >> }
 
 =============================================================================
